@@ -261,7 +261,7 @@ var fragments = []string{
 	"() => HOLE", "function () { return HOLE }", "class { f = HOLE }", "class { static f = HOLE }", "class { #p = HOLE; g() { return this.#p } }",
 	"class { static { HOLE } }", "class { static #s = HOLE; static g() { return this.#s } }", "class { #m() { return HOLE } g() { return this.#m() } }",
 	"class { get #a() { return HOLE } g() { return this.#a } }", "class { #x; static h(o) { return #x in o } }",
-	"import('./other.js')", "import.meta.url", "/x(?<n>y)/s", "/(?<=a)b/u", "/a/v", "/a/d", "new.target", "super.x", "arguments", "await HOLE", "yield HOLE",
+	"import('./other.js')", "import.meta.url", "/x(?<n>y)/s", "/(?<=a)b/u", "/a/v", "/a/d", "new.target", "super.x", "arguments", "await HOLE",
 	"(HOLE, HOLE)", "f(HOLE)", "HOLE ? HOLE : HOLE", "HOLE === null || HOLE === undefined ? undefined : a.b", "HOLE != null ? a : b", "'s' + HOLE + 't'",
 	"a === null || a === undefined ? undefined : a[HOLE]", "{ k: HOLE, [HOLE]: 1, m() { return HOLE } }", "(({ p, ...q }) => q)(HOLE)", "a?.b ?? (c ||= HOLE)",
 	"function ({ p = HOLE, ...q }, ...r) { return [p, q, r] }", "o.p?.q.r ?? s", "a ** -b", "(a **= HOLE)", "0x10n * 2n", "1_000_000", "typeof a === 'undefined'",
@@ -364,6 +364,9 @@ func corpus(st *Stats) {
 	c = &cfg{}
 	c.setTarget("es2021")
 	run("class C { static p = new.target }\nnew C", c)
+	c = &cfg{}
+	c.setTarget("es2017")
+	run("class C extends D { async *m() { yield super.x } }\nnew C", c)
 	// the refuted witness of lowering_closed: class-field lowering writes array spread
 	c = &cfg{Supported: map[string]bool{"class-field": false, "array-spread": false}}
 	c.setTarget("esnext")
@@ -434,6 +437,48 @@ func glue(r *Rng, st *Stats, cf *CoqFile, n int, tier string) {
 				fmt.Printf("DUMP %s %s [%s] ERROR %v\n", kind, nameOf(p), jsonStr(c), msgTexts(res.errors))
 			}
 			lowerCase(kind, c, p, res, nil)
+			// P3: the `supported` overrides / the target are honoured in the other direction
+			// too: when every feature the probe uses is available in the target (per the
+			// ECMA table for ES years, overrides winning) esbuild must not reject the probe
+			// with a target error.  Errors that also occur for ESNext with the same format,
+			// loader and JSX mode are not target errors.
+			if p != nil && c.contradiction() == "" && !c.KeepNames {
+				all := append([]string{p.feature}, p.also...)
+				clean := true
+				for _, f := range all {
+					if uns[f] {
+						clean = false
+					}
+				}
+				// overrides that concern other features, or a target that lacks part of the ES2015
+				// baseline the probes and the bundle scaffolding are written in, can be rejected
+				// for reasons that have nothing to do with the probe's features
+				for k := range c.Supported {
+					if !contains(all, camel(k)) {
+						clean = false
+					}
+				}
+				for n := range notTransformable {
+					if c.goOptions().UnsupportedJSFeatures.Has(featByName[n]) && n != "NestedRestBinding" {
+						clean = false
+					}
+				}
+				if clean {
+					cx := *c
+					cx.Supported, cx.engines, cx.Engines = nil, nil, nil
+					cx.setTarget("esnext")
+					var rx result
+					if cx.Bundle {
+						rx = runBuild(dir, src, &cx)
+					} else {
+						rx = runTransform(src, &cx)
+					}
+					if rx.ok {
+						failOnce(st, "error-for-supported-feature", map[string]interface{}{"kind": kind, "source": src, "config": c, "scenario": "rejected:" + p.feature},
+							map[string]interface{}{"errors": msgTexts(res.errors)}, "no target error: every feature the program uses is available in this target")
+					}
+				}
+			}
 			return
 		}
 		v := checkOutput(st, kind, src, c, res)
@@ -459,21 +504,21 @@ func glue(r *Rng, st *Stats, cf *CoqFile, n int, tier string) {
 			sort.Strings(leaks)
 			specItems = append(specItems, fmt.Sprintf("(%d, %s, %s)", c.year, coqFeatList(det), coqFeatList(leaks)))
 		}
-		// P3: with everything the probe uses supported, the probe's feature is still there
-		if p != nil && !p.noKeep && !c.Minify && detectable[p.feature] {
-			all := append([]string{p.feature}, p.also...)
+		// evidence only (NOT part of the property): with everything the probe uses
+		// supported, is the probe's own syntax still there?  esbuild may rewrite a
+		// supported feature into older syntax (export * as ns -> import + export).
+		if p != nil && !p.noKeep && !c.Minify && detectable[p.feature] && !c.Bundle {
 			clean := true
-			for _, f := range all {
+			for _, f := range append([]string{p.feature}, p.also...) {
 				if uns[f] {
 					clean = false
 				}
 			}
 			if p.esm && (c.Format == "cjs" || c.Format == "iife") {
-				clean = false // import/export syntax is converted by the format
+				clean = false
 			}
-			if clean && !contains(v.detected, p.feature) && !c.Bundle {
-				failOnce(st, "supported-feature-was-lowered", map[string]interface{}{"kind": kind, "source": src, "config": c, "scenario": "keep:" + p.feature},
-					map[string]interface{}{"output": clip(res.code, 1200), "detected": v.detected}, "the output still uses "+p.feature)
+			if clean && !contains(v.detected, p.feature) {
+				st.Histogram["evidence:supported-syntax-rewritten:"+p.feature]++
 			}
 		}
 	}
